@@ -71,10 +71,13 @@ type Origin struct {
 	Phis      map[*ssa.Phi]bool
 	Values    map[ssa.Value]bool // every SSA value visited (for "derives from value X" queries)
 	Truncated bool
+	// CallCtx: the call context in which a visited call was first reached (to express its arguments in the terms of
+	// the functions above it, see ResolveUp)
+	CallCtx map[*ssa.Call]*tctx
 }
 
 func newOrigin() *Origin {
-	return &Origin{Leaves: map[string]Leaf{}, Ops: map[string]bool{}, Calls: map[*ssa.Call]bool{}, Phis: map[*ssa.Phi]bool{}, Values: map[ssa.Value]bool{}}
+	return &Origin{Leaves: map[string]Leaf{}, Ops: map[string]bool{}, Calls: map[*ssa.Call]bool{}, Phis: map[*ssa.Phi]bool{}, Values: map[ssa.Value]bool{}, CallCtx: map[*ssa.Call]*tctx{}}
 }
 
 func (o *Origin) LeafList() []string {
@@ -816,6 +819,9 @@ func sameLoad(a, b ssa.Value) bool {
 
 func (st *tstate) traceCall(call *ssa.Call, idx int, path []string, c *tctx) {
 	st.o.Calls[call] = true
+	if _, ok := st.o.CallCtx[call]; !ok {
+		st.o.CallCtx[call] = c
+	}
 	cc := call.Common()
 	name := callName(cc)
 	if b, ok := cc.Value.(*ssa.Builtin); ok {
@@ -842,6 +848,10 @@ func (st *tstate) traceCall(call *ssa.Call, idx int, path []string, c *tctx) {
 		if fn, ok := mc.Fn.(*ssa.Function); ok {
 			callees = []*ssa.Function{fn}
 		}
+	} else if prm, ok := cc.Value.(*ssa.Parameter); ok {
+		// a function handed in as a parameter (strategy / callback style): the function literals or named functions the
+		// callers pass - the caller of this activation when the trace came in through it, every static caller otherwise
+		callees = st.funcParamTargets(prm, c)
 	}
 	enter := len(callees) > 0 && c.depth < st.t.Depth
 	for _, f := range callees {
@@ -1214,4 +1224,98 @@ func outparamWrites(p *ssa.Parameter) ([]paramWrite, bool) {
 		simple bool
 	}{ws, simple}
 	return ws, simple
+}
+
+// funcParamTargets resolves a function-typed parameter to the functions passed for it. Returns nil unless every
+// relevant call site passes a function literal or a named function (so that the set is complete).
+func (st *tstate) funcParamTargets(prm *ssa.Parameter, c *tctx) []*ssa.Function {
+	fn := prm.Parent()
+	if fn == nil {
+		return nil
+	}
+	idx := -1
+	for i, p := range fn.Params {
+		if p == prm {
+			idx = i
+		}
+	}
+	if idx < 0 {
+		return nil
+	}
+	asFunc := func(v ssa.Value) *ssa.Function {
+		switch x := v.(type) {
+		case *ssa.MakeClosure:
+			f, _ := x.Fn.(*ssa.Function)
+			return f
+		case *ssa.Function:
+			return x
+		}
+		return nil
+	}
+	for cc := c; cc != nil; cc = cc.parent {
+		if cc.fn == fn && cc.call != nil && !cc.call.IsInvoke() {
+			if idx < len(cc.call.Args) {
+				if f := asFunc(cc.call.Args[idx]); f != nil && f.Blocks != nil {
+					return []*ssa.Function{f}
+				}
+			}
+			return nil
+		}
+		if cc.fn == fn {
+			break
+		}
+	}
+	var out []*ssa.Function
+	callers := st.t.w.CG().Callers[fn]
+	for _, cs := range callers {
+		if cs.Common().IsInvoke() || cs.Common().StaticCallee() != fn || idx >= len(cs.Common().Args) {
+			return nil
+		}
+		f := asFunc(cs.Common().Args[idx])
+		if f == nil || f.Blocks == nil {
+			return nil
+		}
+		out = append(out, f)
+	}
+	return out
+}
+
+// ResolveUp expresses a value of the function of context c in the terms of the functions above it: a parameter is
+// replaced by the argument of the call that entered the function (repeatedly). Other values are returned unchanged.
+func ResolveUp(v ssa.Value, c *tctx) ssa.Value {
+	for i := 0; i < 8; i++ {
+		p, ok := v.(*ssa.Parameter)
+		if !ok {
+			return v
+		}
+		var cc *tctx
+		for x := c; x != nil; x = x.parent {
+			if x.fn == p.Parent() {
+				cc = x
+				break
+			}
+		}
+		if cc == nil || cc.call == nil {
+			return v
+		}
+		idx := -1
+		for j, q := range cc.fn.Params {
+			if q == p {
+				idx = j
+			}
+		}
+		args := cc.call.Args
+		if cc.call.IsInvoke() {
+			if idx == 0 {
+				v, c = cc.call.Value, cc.parent
+				continue
+			}
+			idx--
+		}
+		if idx < 0 || idx >= len(args) {
+			return v
+		}
+		v, c = args[idx], cc.parent
+	}
+	return v
 }
